@@ -280,7 +280,7 @@ func putMain() {
 		Ack: []int{1, 3, 4}, Session: true})
 	n := 2500
 	if thorough() {
-		n = 40000
+		n = 15000
 	}
 	if v, err := strconv.Atoi(os.Getenv("VERIF_PLACE_N")); err == nil {
 		n = v
